@@ -27,6 +27,9 @@ fn main() {
         let mut ge = g.fork();
         (e.run)(prop, &mut ge, &budget, &mut out);
     }
+    if prop == "C02" {
+        ops::c02_too_long(&mut out);
+    }
     if prop == "C05" {
         ops::c05_streams(&cat, &mut g, if thorough { 20000 } else { 1500 }, &mut out);
     }
